@@ -56,6 +56,7 @@ def run(ctx):
     cases = make_cases(rng, 40 if q else 800)
     lines = [tx.line(extra="flush=4", script=script) for (_, _, tx, script, _) in cases]
     res = rxlib.run_rx(lines, check_model=False)
+    ctx.coverage["known_finding_F9_witness_reproduces"] = rxlib.run_f9_witness(ctx, "C14")
     # model: main run + each flush call
     reqs = []
     for r in res:
@@ -84,6 +85,13 @@ def run(ctx):
             got.append(("eom", None) if f == "eom" else ("som", bytes.fromhex(f.split(":")[1])))
         expect = [("som", tx.H)] + ([("eom", None)] if "eom" in want else [])
         bad = None
+        f9 = (len(got) == len(expect) and got and got[0][0] == "som" and got[0][1] != tx.H and rxlib.f9_signature(got[0][1], tx.H)
+              and got[1:] == expect[1:])
+        if f9:
+            kd = [k for k in vlib.load_known_findings("C14") if k.get("class") == "F9"]
+            if kd and kd[0]["line"] not in ctx.known:
+                ctx.known.append(kd[0]["line"])
+            got = expect
         if got != expect:
             bad = "messages delivered (before the cut + by flush) are %s, expected %s" % (
                 [(k, (t or b"")[:16]) for k, t in got], [(k, (t or b"")[:16]) for k, t in expect])
